@@ -582,6 +582,19 @@ def run(ctx):
          "the next token is pulled through the whole preprocessor and pushed back when it is not `(`: it is expanded twice and releases the macros being expanded - "
          "`#define F(x) x` / `#define A F A` / `A` prints `F F F ...` forever")
 
+    # every arming of a macro is released again: the macro is filed under an end token on every path after it was armed
+    arms = [n for n in em.walk() if write_target(n) is not None and "this->expandedMacros[" in noid(render(write_target(n), False)) and literal(kids(n)[-1]) is True]
+    files = [c_ for c_ in em.walk() if is_call(c_) and callee(c_).endswith("::push_back") and call_object(c_) is not None and
+             any(v_["k"] == "VarDecl" and "expandedMacroEnd[" in noid(render(v_, False)) and v_["d"] == strip(call_object(c_)).get("d") for v_ in em.walk())]
+    for a_ in arms:
+        key_ = noid(render(strip(write_target(a_)), False)).split("expandedMacros[", 1)[1].rsplit("]", 1)[0].strip("()& ")
+        mine_ = [c_ for c_ in files if key_ in noid(render(call_args(c_)[0], False))]
+        p_ = ecfg.find_path(ecfg.position(a_), "exit", lambda b, i, e: any(e == c_["i"] for c_ in mine_)) if mine_ else [0]
+        R.ob("C16-R2", p_ is None, em.q, "armed macro %s is filed under an end token on every path" % key_, em.site(a_),
+             "the re-entry record is always released at the end of the expansion" if p_ is None else
+             "a path leaves expandMacro with `%s` disabled but not filed under any end token: the macro is never re-enabled and comes out as a plain identifier for the rest of the unit "
+             "(`#define NOP(x)` / `#define F(x) x NOP(x)` / `F(1) F(2)` leaves the second F unexpanded)" % key_, path=None if p_ is None or p_ == [0] else p_)
+
     front_end_nulls(ctx, R)
 
     # ---- shared clauses ------------------------------------------------------------------
